@@ -294,6 +294,7 @@ func (w *c02World) replies(mark int) []string {
 func (w *c02World) name(s *c02Sub2) {
 	if sess := w.live(s); sess != nil && sess.SessionID != s.real {
 		s.inc++
+		s.told = nil // a new incarnation is a client that starts over: its first REQUEST names no address
 		s.real = sess.SessionID
 		w.names[sess.SessionID] = "s" + strconv.Itoa(s.k+100*s.inc)
 	}
@@ -321,6 +322,9 @@ func (w *c02World) op(f []string) string {
 	}
 	mark, amark := len(w.bus.egress), len(w.bus.aaa)
 	tag := strings.ToLower(f[0])
+	if (f[0] == "BD" || f[0] == "BQ") && w.live(s) == nil {
+		s.told = nil // a new incarnation is a client that starts over: its first REQUEST names no address
+	}
 	switch f[0] {
 	case "BD":
 		w.comp.processDHCPPacket(w.dhcpPkt(s, layers.DHCPMsgTypeDiscover, nil))
